@@ -1,9 +1,10 @@
 (* Properties/C08.v — All views of a message agree: the two owned name types; decoding vs skipping;
    the three record-header flavours; the iterator API vs the cursor-style reader, record by record;
-   marker-based random access.  (NameRef::eq vs comparison of the decoded names and label iteration
-   vs decoding are decided by the views stream, see DESIGN.md 12.) *)
+   marker-based random access; NameRef::eq vs comparison of the decoded names; label iteration vs
+   the RFC expansion.  (The Questions iterator is decided by the views stream, see DESIGN.md 12.) *)
 From RsdnsModel Require Import Base GenReader Cursor Names Labels Header Tracker RData Reader Script Iter.
-From RsdnsModel.Proofs Require Import CursorSafe LabelsSound Views RandAccess Flavours IterAgree.
+From RsdnsModel.Spec Require Import WireName.
+From RsdnsModel.Proofs Require Import CursorSafe LabelsSound Views RandAccess Flavours IterAgree NameRefEq.
 Open Scope N_scope.
 
 (* owned names of the two types: identical values, errors (with payloads) and resume positions,
@@ -66,3 +67,19 @@ Theorem C08_iterator_skip_is_reader_skip : forall msg f r it c1 ty cl ttl rdlen,
   exists r1 mk r2, rd_marker msg r = (r1, Ok (OMarker mk)) /\ m_rtype mk = ty /\ m_rclass mk = cl /\
     rd_skip_data mk r1 = (r2, Ok OUnit) /\ r_cur r2 = c2 /\ r_tr r2 = tr2 /\ r_done r2 = false.
 Proof. exact iter_skip_is_reader_skip. Qed.
+
+(* NameRef::eq on two borrowed names of one message (same visible buffer) that both decode equals
+   == on the decoded names (case-insensitive, C18) — whatever compression the two names use,
+   including the same-offset shortcut *)
+Theorem C08_nameref_eq_is_decoded_eq : forall msg nk c1 c2 t1 t2 c1' c2',
+  cwf msg c1 -> cwf msg c2 -> vis msg c1 = vis msg c2 ->
+  read_name msg nk c1 = Ok (t1, c1') -> read_name msg nk c2 = Ok (t2, c2') ->
+  nameref_eq msg c1 c2 = Ok (name_eq t1 t2).
+Proof. exact nameref_eq_is_decoded_eq. Qed.
+
+(* iterating the labels of a borrowed name yields exactly the labels of its RFC 1035 4.1.4
+   expansion, with their offsets, in order, and then ends without an error *)
+Theorem C08_label_iteration_is_expansion : forall msg c ls,
+  cwf msg c -> expands (vis msg c) None 0 (pos c) ls ->
+  Forall (fun l => label_ok (snd l) = true) ls -> labels_drain msg c = Ok (ls, None).
+Proof. exact labels_drain_spec. Qed.
